@@ -146,6 +146,7 @@ func checkC01(c *Ctx) {
 		checkContextKinds(c, "C01.R19.context-kind", ev, checkExampleIsJSON(c, "C01.R19.example-json", gen))
 		checkIdentifierHeads(c, "C01.R20.identifier-heads", ev)
 		checkExtraSchemaImports(c, "C01.R16.extra-schema-imports", gen)
+		checkReceiverArgs(c, "C01.R20.receiver-args", ev)
 	}
 	checkVersionedImports(c, "C01.R14.versioned-imports", gen)
 
